@@ -126,6 +126,8 @@ fn robustness_discrete() {
         Disc::Hypergeometric { total: 1 << 40, feature: 1 << 39, draws: 1 << 39 },
         Disc::Hypergeometric { total: 1 << 40, feature: (1 << 40) - 5, draws: (1 << 40) - 7 },
         Disc::Hypergeometric { total: 1 << 40, feature: 3, draws: 1 << 39 },
+        Disc::Hypergeometric { total: u64::MAX - 2, feature: 1 << 62, draws: 1 << 62 },
+        Disc::Hypergeometric { total: u64::MAX, feature: u64::MAX - 1, draws: 5 },
         Disc::Zipf { n: 1, s: 0.0 },
         Disc::Zipf { n: 10, s: 1.0 },
         Disc::Zipf { n: 1_000_000, s: 0.5 },
